@@ -340,14 +340,34 @@ pub struct SeqCase {
 /// one (in particular a truncated twin of a tag that was accepted before must
 /// still be rejected).
 pub fn eval_seq(c: &SeqCase, obs: &mut Obs) -> Result<(), String> {
+    let _ = names32();
     let need = c.steps.iter().map(|s| 20 + s.table_len + 16).max().unwrap_or(0);
-    let mut buf = Aligned::new(&vec![0xEEu8; need.max(1 << 16) + 4096]);
-    let mut shapes = Vec::new();
-    for (i, step) in c.steps.iter().enumerate() {
-        let mut o = Obs::new();
-        eval_mode(step, &mut o, Some(&mut buf)).map_err(|m| format!("tag {} of {} at the same address: {m}", i + 1, c.steps.len()))?;
-        shapes.push(elf_shape(step.n as u64, step.entsize as u64, step.shndx as u64, step.table_len as u64));
+    // the whole sequence runs in one forked child (so that the tags do follow
+    // each other in one process, and a fault is a verdict about the library)
+    let r = mb2_sandbox::run_child(|| {
+        let mut buf = Aligned::new(&vec![0xEEu8; need.max(1 << 16) + 4096]);
+        for (i, step) in c.steps.iter().enumerate() {
+            let mut o = Obs::new();
+            if let Err(m) = eval_mode(step, &mut o, Some(&mut buf)) {
+                return format!("E tag {} of {} at the same address: {m}", i + 1, c.steps.len()).into_bytes();
+            }
+        }
+        b"OK".to_vec()
+    });
+    match r {
+        mb2_sandbox::ChildResult::Done(b) if b == b"OK" => {}
+        mb2_sandbox::ChildResult::Done(b) => return Err(String::from_utf8_lossy(&b[2.min(b.len())..]).into_owned()),
+        mb2_sandbox::ChildResult::Signal(sig) => return Err(format!("a sequence of {} tags at the same address crashed the process ({}): {}", c.steps.len(), mb2_sandbox::ChildResult::signal_name(sig), c.steps.iter().map(|s| format!("[n {} es {} shndx {} table {}]", s.n, s.entsize, s.shndx, s.table_len)).collect::<Vec<_>>().join(" "))),
+        mb2_sandbox::ChildResult::Timeout => {
+            obs.inconclusive("watchdog expired");
+            return Ok(());
+        }
+        mb2_sandbox::ChildResult::Broken(code) => {
+            obs.inconclusive(format!("child exited with {code} without a record"));
+            return Ok(());
+        }
     }
+    let shapes: Vec<ElfShape> = c.steps.iter().map(|step| elf_shape(step.n as u64, step.entsize as u64, step.shndx as u64, step.table_len as u64)).collect();
     let mixed = shapes.iter().any(|s| *s == ElfShape::Fits) && shapes.iter().any(|s| *s != ElfShape::Fits);
     obs.class(if mixed { "!accepted-and-rejected" } else { "uniform" });
     if mixed {
